@@ -31,15 +31,16 @@ theorem ascii_resync (decode : Bytes → PyM (Option μ)) (units : List Nat) (si
   exact run_drains asciiStep decode units single EndsCRLF ascii_T_wait ascii_T_skip ascii_T_frame (Or.inl rfl)
     _ _ (Nat.lt_succ_self _) hT
 
-/-- binary: the same, for frames without delimiter bytes inside (see known finding `binary-framer-escaping`) -/
+/-- binary: the same, for frames without an END delimiter between the braces (a 0x7B there is an ordinary byte to the
+    receiver; see known finding `binary-framer-escaping` for the rest) -/
 theorem binary_resync (decode : Bytes → PyM (Option μ)) (units : List Nat) (single : Bool) (b : Bytes)
-    (uid fc : Nat) (data : Bytes) (hn : NoDelim (binBody uid fc data)) :
+    (uid fc : Nat) (data : Bytes) (hn : NoEnd (binBody uid fc data)) :
     EndsBrace (feed binaryStep decode units single b (binFrame uid fc data)).2 ∧
     (NoRaise (feed binaryStep decode units single b (binFrame uid fc data)).1 →
       (feed binaryStep decode units single b (binFrame uid fc data)).2 = []) := by
   have hlast : (Impl.computeCRC ([uid, fc] ++ data) % 256) ≠ 0x7D := by
     have := hn (Impl.computeCRC ([uid, fc] ++ data) % 256) (by simp [binBody])
-    exact this.2
+    exact this
   have hT : EndsBrace (b ++ binFrame uid fc data) := by
     right
     refine ⟨b ++ [0x7B] ++ [uid, fc] ++ data ++ [Impl.computeCRC ([uid, fc] ++ data) / 256],
